@@ -203,7 +203,25 @@ fn main() {
                 let _ = std::fs::write(&of, serde_json::to_string(&doc).unwrap());
                 std::process::exit(0);
             });
-            let (meta, mut out) = props::run(&id, &ctx);
+            *pool::PROPERTY.lock().unwrap() = id.clone();
+            // (a panic located in harness code has already ended the process in the hook above; what can
+            // still unwind to here was raised inside the library, outside every per-call guard)
+            let (meta, mut out) = match std::panic::catch_unwind(std::panic::AssertUnwindSafe(|| props::run(&id, &ctx))) {
+                Ok((m, o)) => (Some(m), o),
+                Err(p) => {
+                    let mut o = report::Outcome::new();
+                    o.violations.push(report::Violation {
+                        property: id.clone(),
+                        system: "uncaught-library-panic".into(),
+                        config: String::new(),
+                        op_class: "library call".into(),
+                        symptom: "panic".into(),
+                        detail: format!("a library call made while setting up or sampling (no failure expected there) panicked: {}", util::panic_msg(&p)),
+                        replay: serde_json::json!({"kind": "none", "note": "re-run the check"}),
+                    });
+                    (None, o)
+                }
+            };
             if let Ok(v) = std::env::var("DSIV_VARIANT") {
                 if !v.is_empty() {
                     let cfgs: Vec<String> = out.cov.configs.iter().map(|c| format!("{}+{}", c, v)).collect();
